@@ -6,10 +6,13 @@ import ZV.Model.C13
      singles: `,`-separated `serial/good/unknown/this/next/revokedAt/reason/hash/critical`;
      the three `v…` bits are the signature-primitive results (embedded key on the response, issuer key
      on the embedded certificate, issuer key on the response); the last two arguments are for the Go side.
-  `c13 resp <ca> <mode> <issuerNil> <algOk> <status> <serial> <this> <next> <revokedAt> <reason> <hash> <crit> …`
-     CreateResponse then ParseResponse in the toy signature scheme `sign k m = k :: m`.
+  `c13 resp <ca> <mode> <issuerNil> <algOk> <status> <serial> <this> <next> <revokedAt> <reason> <hash> <crit>
+            <sigchoice> <nsec> <tzoff> <nExt> <keyKind 0 rsa|1 p224|2 p256|3 p384|4 p521|5 other curve|6 other key> <requested x509.SignatureAlgorithm>`
+     CreateResponse then ParseResponse in the toy signature scheme `sign k m = k :: m`; whether the signer key /
+     requested algorithm is accepted and which algorithm ends up in the response come from `signingParams`.
   output: `err` | `err-create` | `panic` |
-          `ok <idx> <good|revoked|unknown> <serial> <this> <next> <revokedAt|-> <reason|-> <hash> <name|keyhash> <cert 0|1>` -/
+          `ok <idx> <good|revoked|unknown> <serial> <this> <next> <revokedAt|-> <reason|-> <hash> <name|keyhash> <cert 0|1>`
+          (resp lines: followed by ` sig=<x509.SignatureAlgorithm of the parsed response>`) -/
 namespace ZV.C13
 
 def pBool (s : String) : Option Bool :=
@@ -84,16 +87,23 @@ def toyEncode (l : List Single) : List Int :=
 def toyCert (k by_ : Nat) : ECert Nat (List Int) :=
   { key := k, alg := 0, tbs := [1000 + (k : Int)], sig := toySign by_ [1000 + (k : Int)] }
 
+def pKind (s : String) : Option KeyKind :=
+  if s == "0" then some .rsa else if s == "1" then some .p224 else if s == "2" then some .p256
+  else if s == "3" then some .p384 else if s == "4" then some .p521 else if s == "5" then some .otherCurve
+  else if s == "6" then some .otherKey else none
+
+/-- `<algOk>` on the line is the harness's own expectation (cross-checked on the Go side); the model decides with
+    `signingParams <keyKind> <requested algorithm>` and prints the algorithm the parsed response must show. -/
 def handleResp (a : List String) : String :=
   match a with
-  | ca :: mode :: inil :: algok :: st :: se :: th :: nx :: ra :: re :: h :: cr :: _ =>
-    match ca.toNat?, mode.toNat?, pBool inil, pBool algok, parseInt st, parseInt se, parseInt th, parseInt nx with
-    | some ca, some mode, some inil, some algok, some st, some se, some th, some nx =>
+  | [ca, mode, inil, _algok, st, se, th, nx, ra, re, h, cr, _sc, _nsec, _tz, _nExt, kk, rq] =>
+    match ca.toNat?, mode.toNat?, pBool inil, pKind kk, rq.toNat?, parseInt st, parseInt se, parseInt th, parseInt nx with
+    | some ca, some mode, some inil, some kk, some rq, some st, some se, some th, some nx =>
       match parseInt ra, parseInt re, h.toNat?, pBool cr with
       | some ra, some re, some h, some cr =>
         let t : Template := { status := st, serial := se, thisUpdate := th, nextUpdate := nx, revokedAt := ra,
                               reason := re, hash := h, critical := cr }
-        let ca' := (ca + 1) % 4
+        let ca' := (ca + 1) % 6
         let (signer, embed) : Nat × Option (ECert Nat (List Int)) :=
           if mode = 0 then (ca, none)
           else if mode = 1 then (10 + ca, some (toyCert (10 + ca) ca))
@@ -101,12 +111,20 @@ def handleResp (a : List String) : String :=
           else if mode = 3 then (10 + ca', some (toyCert (10 + ca') ca'))
           else if mode = 4 then (ca, some (toyCert ca ca))
           else (99, none)
-        match create toyEncode toySign algok 0 t signer embed with
+        let (algok, alg) : Bool × Nat :=
+          match signingParams kk rq with
+          | .ok (_, al) => (true, al)
+          | _ => (false, 0)
+        match create toyEncode toySign algok alg t signer embed with
         | .err => "err-create"
         | .panic => "panic"
-        | .ok inp => showRes showOut (parse toyVerify inp none (if inil then none else some ca))
+        | .ok inp =>
+          match parse toyVerify inp none (if inil then none else some ca) with
+          | .ok o => "ok " ++ showOut o ++ " sig=" ++ toString inp.alg
+          | .err => "err"
+          | .panic => "panic"
       | _, _, _, _ => "bad-op"
-    | _, _, _, _, _, _, _, _ => "bad-op"
+    | _, _, _, _, _, _, _, _, _ => "bad-op"
   | _ => "bad-op"
 
 def handle (args : List String) : String :=
